@@ -207,7 +207,8 @@ func runScenario(r *h.Run, sc scenario, emit bool) observation {
 
 func main() {
 	r := h.Init("C03")
-	r.Imports = []string{"GU.C03.Model"}
+	r.Imports = []string{"GU.C03.Model", "GU.C03.Gen"}
+	r.CheckFn = "(check_caseF generated)" // the model instantiated with the facts extracted from the source on this run
 	r.Rule("seeded archive specifications (0..12 entries per archive, directories to depth 4, stored and deflated data of 0..3000 B with ratios up to ~1000:1, " +
 		"headers lying about size (smaller, larger, >= 2^63) or checksum, unsupported methods, damaged streams, archives nested to depth 0..6 with fan-out 1..3, " +
 		"non-zips with zip extensions, zips without) x limits drawn independently per dimension from {tiny, exact, exact-1, exact+1, huge, negative depth} relative to the " +
